@@ -42,6 +42,13 @@ CLAIMED = {
             'An arbitrary message is abstracted by the assumed contract "encode() returns some bytes" (C02 purity). The length arithmetic inside '
             '_recv (how many bytes are requested from the transport) is covered under C13/C08. A1-A10; z3/cvc5.',
             'contract-based deductive verification (pyvc VC generation from /repo AST + z3/cvc5)', 'DESIGN.md section 4 C14'),
+    'C19': ('proof', 'For each of the 13 value kinds (8/16/32/64-bit signed and unsigned, 16/32/64-bit floats, bit group, string) and each of the four '
+            'byte-order x word-order combinations: add_X appends exactly the conventional register image (S-PAYLOAD), a decoder whose cursor stands at '
+            'that image inside arbitrary surrounding bytes returns the value and advances by its width (the sequence statement follows by induction on '
+            'the value list), to_registers is the big-endian 16-bit reading with zero pad, fromRegisters restores the payload. All values, no bound.',
+            'IEEE-754 conversion of struct e/f/d is an uninterpreted injection with unpack(pack(v)) == v; struct byte-slice rewrite rules '
+            '(pack(unpack(bytes)) == bytes, recomposition of consecutive slices) are part of the trusted struct model. A1-A10; z3/cvc5.',
+            'contract-based deductive verification (pyvc VC generation from /repo AST + z3/cvc5)', 'DESIGN.md section 4 C19'),
 }
 NOT_YET = 'check not built yet at this commit (planned: contract-based, see DESIGN.md section 4)'
 ALL = ['C%02d' % i for i in range(1, 21)]
